@@ -224,6 +224,7 @@ def run(report, prog, tier):
     c05.rule_miu_writes(report, prog)
     c05.rule_sequence(report, prog)
     c05.rule_mod16(report, prog)
+    c05.rule_sap_order(report, prog)
     report.trusted += ['SNEP 1.0 message formats and Continue/Reject codes as tabulated in the rule', 'struct sizes of the checker interpreter']
     report.assumptions += ['in-order exactly-once delivery of each fragment is the data link connection\'s job (C05)']
 
